@@ -20,7 +20,9 @@ EXPLANATION = (
     "of the params stream all come from one source (config.k / the stored k) with no arithmetic in between, and "
     "the first/non-first test is `index == 0`; (EMPTY) an empty LZ delta is recorded as in-group id 0 only under "
     "LZ encoding, and the reader returns the cached reference for id 0 and for an empty unpacked delta; (ID) the "
-    "id-to-pack addressing rules of C02 and (ALPHA) the literal alphabet rule of C09 are run here as well.")
+    "id-to-pack addressing rules of C02 and (ALPHA) the literal alphabet rule of C09 are run here as well; (SPLIT) a segment cut in "
+    "two at a missing splitter gives parts that overlap by exactly k bases for every k in 1..=32 (index arithmetic evaluated with exact "
+    "integer division), and the cutter is handed config.k.")
 UNDECIDED = ("that grouping, split positions, delta de-duplication and LZ matching compute the right data; "
              "seg_part_no renumbering; everything inside the LZ matcher")
 
